@@ -245,6 +245,29 @@ impl Monitor for C09 {
                     ctx.violation(format!("{k} (provider queries the cache from sort_candidates)"), d);
                 }
             }
+            // the same with an IMPATIENT provider: it starts dependency queries of its own, holds
+            // them while other requests (of the solver, of its other concurrent sort calls) queue up
+            // behind them, and then abandons them. Every waiter has to start over, and exactly one
+            // of them may ask the provider again (a request the provider itself gave up is not
+            // "answered"); two concurrent requests for one key are "asked twice".
+            if h % 8 == 0 {
+                let mut sess = Session::new(u.clone(), &opts);
+                sess.prov().reentrant_sort.set(true);
+                sess.prov().abandon.set(true);
+                for p in c.problems.iter().take(2) {
+                    ctx.rep.evaluations += 1;
+                    let out = sess.solve(p);
+                    note_outcome(ctx.rep, &out);
+                    if matches!(out, Outcome::Panic(_) | Outcome::Deadlock | Outcome::Budget) {
+                        break;
+                    }
+                }
+                ctx.rep.count("sequences-with-an-impatient-provider");
+                ctx.rep.add("re-entrant-queries-abandoned-by-the-provider", sess.prov().abandoned.get());
+                for d in super::c10::duplicate_calls(&sess.log()) {
+                    ctx.violation("provider asked twice (impatient provider abandons its own cache queries)", d);
+                }
+            }
         }
     }
 }
